@@ -34,4 +34,32 @@ theorem C20_vec_default_partial (et : Ty) (hL : Law et.dict) (sz : Nat) (hsz : e
     simp [vecD, hr, hss]
 
 example : emplaceU (.vec u16 L16) .vecEmpty ⟨0, [9,9,9,9,9]⟩ = .ok ⟨[0,0,9,9,9], .ok ()⟩ := by decide
+
+/-- **C20, validity for every type.** Whatever initialiser the default emplacer of a type amounts to (per-field defaults,
+the `#[default]` variant, empty containers, `Default::default()` images of sized values) — as long as it is well typed,
+running it on any aligned slot of at least `MIN_SIZE` bytes, whatever the slot held before, never faults and, on `Ok`,
+leaves bytes that validate. *Which* initialiser the generated `default_in_place` amounts to is a fact about the macro
+output of each type definition; the correspondence check compares it with the documented default for every catalog type. -/
+theorem C20_default_valid_partial (t : Ty) (h : t.WF) (dflt : Init) (hw : InitWT t dflt) (s : Slice)
+    (hal : s.addr % t.dict.align = 0) (hlen : t.dict.minSize ≤ s.len) :
+    ∃ o, emplaceU t dflt s = .ok o ∧ o.bytes.length = s.len ∧
+      (o.res = .ok () → t.dict.validate ⟨s.addr, o.bytes⟩ = .ok ()) :=
+  C03_emplace_validates_partial t h dflt hw s hal hlen
+
+/-- the empty `FlatString` and the empty `FlexVec` (of any item type): `Ok`, valid, whatever was in the buffer -/
+theorem C20_str_default_partial (l : LenTy) (hl : l.Law) (s : Slice) (hal : s.addr % (Ty.str l).dict.align = 0)
+    (hlen : (Ty.str l).dict.minSize ≤ s.len) :
+    ∃ o, emplaceU (.str l) .strEmpty s = .ok o ∧ o.bytes.length = s.len ∧ (o.res = .ok () → (Ty.str l).dict.validateU ⟨s.addr, o.bytes⟩ = .ok ()) := by
+  obtain ⟨o, h1, h2⟩ := emplace_strEmpty_spec l hl s hal hlen
+  exact ⟨o, h1, h2.len, h2.valid⟩
+
+theorem C20_flex_default_partial (it : Ty) (h : it.WF) (l : LenTy) (hl : l.Law) (s : Slice)
+    (hal : s.addr % (Ty.flex it l).dict.align = 0) (hlen : (Ty.flex it l).dict.minSize ≤ s.len) :
+    ∃ o, emplaceU (.flex it l) .flexEmpty s = .ok o ∧ o.bytes.length = s.len ∧
+      (o.res = .ok () → (Ty.flex it l).dict.validateU ⟨s.addr, o.bytes⟩ = .ok ()) := by
+  obtain ⟨o, h1, h2⟩ := emplace_flexEmpty_spec it (Ty.law it h) l hl s hal hlen
+  exact ⟨o, h1, h2.len, h2.valid⟩
+
+example : emplaceU (.str L16) .strEmpty ⟨0, [9,9,9,9,9]⟩ = .ok ⟨[0,0,9,9,9], .ok ()⟩ := by decide
+example : emplaceU FlexS1 .flexEmpty ⟨0, [9,9,9,9,9,9,9,9]⟩ = .ok ⟨[0,0,9,9,9,9,9,9], .ok ()⟩ := by decide
 end FV.Props
